@@ -7,6 +7,10 @@
  *                                             |  err Schema | Build | Print<LY_ERR>
  *   parse <dsl> <yang-hex> <lyb-hex>        lyd_parse_data_mem(LYD_LYB, LYD_PARSE_ONLY | LYD_PARSE_STRICT | LYD_PARSE_ORDERED)
  *                                             -> ok <dump, hex> | err Parse<LY_ERR>
+ *   metaskip <value-hex>                    finding F331: context A has modules `ann` (md:annotation hint, string) and `dat`, context B only `dat`;
+ *                                           /dat:x="val" with metadata ann:hint=<value>, /dat:y=7 printed as LYB in A and parsed in B with
+ *                                           LYD_PARSE_ONLY (not strict: the annotation of the unknown module is to be skipped)
+ *                                             -> ok <JSON of the parsed tree, hex> | err Parse<LY_ERR>
  *   leakcheck
  *   wd: explicit | trim | all | all-tag | impl-tag                                                                                */
 #define _GNU_SOURCE
@@ -98,6 +102,39 @@ cleanup:
     lyd_free_all(forest);
 }
 
+static void
+op_metaskip(const char *id, const char *valhex)
+{
+    static const char *ann = "module ann {yang-version 1.1; namespace \"urn:ann\"; prefix a; import ietf-yang-metadata {prefix md;} "
+            "md:annotation hint {type string;}}";
+    static const char *dat = "module dat {yang-version 1.1; namespace \"urn:dat\"; prefix d; leaf x {type string;} leaf y {type uint8;}}";
+    const char *dir = getenv("VERIF_YANG_DIR");
+    struct ly_ctx *c1 = NULL, *c2 = NULL;
+    struct lyd_node *t = NULL, *t2 = NULL, *n;
+    char *val = vp_unhex(valhex, NULL), *buf = NULL, *json = NULL, *padded = NULL;
+    int len;
+    LY_ERR r;
+
+    if (!val || ly_ctx_new(dir, 0, &c1) || ly_ctx_new(dir, 0, &c2) || lys_parse_mem(c1, ann, LYS_IN_YANG, NULL) ||
+            lys_parse_mem(c1, dat, LYS_IN_YANG, NULL) || lys_parse_mem(c2, dat, LYS_IN_YANG, NULL)) { vp_reply(id, "err Schema"); goto cleanup; }
+    if (lyd_new_path(NULL, c1, "/dat:x", "val", 0, &t) || lyd_new_meta(c1, t, NULL, "ann:hint", val, 0, NULL) ||
+            lyd_new_path(t, c1, "/dat:y", "7", 0, &n)) { vp_reply(id, "err Build"); goto cleanup; }
+    if (lyd_print_mem(&buf, t, LYD_LYB, LYD_PRINT_WITHSIBLINGS)) { vp_reply(id, "err Print"); goto cleanup; }
+    len = lyd_lyb_data_length(buf);
+    padded = calloc(1, (len > 0 ? len : 0) + 64);
+    memcpy(padded, buf, len > 0 ? len : 0);
+    r = lyd_parse_data_mem(c2, padded, LYD_LYB, LYD_PARSE_ONLY, 0, &t2);
+    if (r) { vp_reply(id, "err Parse%s", tp_errname(r)); goto cleanup; }
+    lyd_print_mem(&json, t2, LYD_JSON, LYD_PRINT_WITHSIBLINGS | LYD_PRINT_SHRINK);
+    vp_begin(id, "ok");
+    if (json && json[0]) vp_field_hex(json, strlen(json)); else vp_field_s("-");
+    vp_end();
+cleanup:
+    lyd_free_all(t); lyd_free_all(t2);
+    free(buf); free(json); free(padded); free(val);
+    ly_ctx_destroy(c1); ly_ctx_destroy(c2);
+}
+
 int
 main(void)
 {
@@ -112,6 +149,8 @@ main(void)
             op_print(id, r.tok[3], r.tok[4], r.tok[5], r.tok[6]);
         } else if (!strcmp(op, "parse") && r.ntok == 6) {
             op_parse(id, r.tok[3], r.tok[4], r.tok[5]);
+        } else if (!strcmp(op, "metaskip") && r.ntok == 4) {
+            op_metaskip(id, r.tok[3]);
         } else if (!strcmp(op, "leakcheck")) {
             tp_schema_free_all();
             vp_reply(id, VP_LEAKCHECK() ? "err Leak" : "ok");
